@@ -619,6 +619,12 @@ def undefined_metadata_none(ctx, res):
     ps, _, _ = paths_of(ctx, "is_dunder_name")
     deciding = [p for p in ps if p.outcome[0] == "RETURN"
                 and p.outcome[1] not in ("-1", "0", "1")]
+    lowered = False
+    if not deciding:
+        # `return a && b && ...;` is analysed as its atomic tests: the
+        # accepting path is the one that returns 1
+        deciding = [p for p in ps if p.outcome == ("RETURN", "1")]
+        lowered = True
     res.instance("is_dunder_name", facts.loc(facts.func("is_dunder_name")),
                  paths=len(ps))
     if len(deciding) != 1:
@@ -638,6 +644,16 @@ def undefined_metadata_none(ctx, res):
     idx = sorted(normidx(it[2][-1]) for it in reads)
     want = sorted(["0", "1", "n-2", "n-1"])
     txt = p.outcome[1]
+    if lowered:
+        # the conjunction, reconstructed from the tests that all hold on the
+        # accepting path (a disjunction would give several accepting paths)
+        tests = [a for a in p.atoms if isinstance(a[1], bool)
+                 and "PyUnicode_READY" not in a[0]
+                 and "_PyUnicode_Ready" not in a[0]
+                 and not a[0].startswith("(0 >")
+                 and ("95" in a[0] or ">=" in a[0])]
+        txt = " && ".join(a[0] for a in tests if a[1]) + (
+            " || negated" if any(not a[1] for a in tests) else "")
     res.oblige(idx == want, "is_dunder_name:positions",
                facts.loc(facts.func("is_dunder_name")),
                f"is_dunder_name reads the characters at {idx}; a __dunder__ "
